@@ -328,9 +328,22 @@ func (g *Gen) Fill(m protoreflect.Message, depth int) {
 			if force && nn == 0 {
 				nn = 2
 			}
-			for n := nn; n > 0 && (g.left > 0 || force); n-- {
+			// entries whose encoded length straddles the one-/two-byte length prefix (127 / 128):
+			// string keys of 110..126 bytes with values of mixed widths
+			boundary := fd.MapKey().Kind() == protoreflect.StringKind && fd.MapValue().Message() == nil && g.R.Intn(100) < 8
+			if boundary {
+				nn = 3 + g.R.Intn(3)
+			}
+			for n := nn; n > 0 && (g.left > 0 || force || boundary); n-- {
 				g.left--
 				k := g.Scalar(fd.MapKey()).MapKey()
+				if boundary {
+					kb := make([]byte, 110+g.R.Intn(17))
+					for i := range kb {
+						kb[i] = byte('a' + g.R.Intn(26))
+					}
+					k = protoreflect.ValueOfString(string(kb)).MapKey()
+				}
 				if fd.MapValue().Message() != nil {
 					sub := mp.NewValue()
 					if depth < g.MaxDepth && (force || g.R.Intn(3) > 0) {
